@@ -36,7 +36,7 @@ def gen_family(seed, fam):
         pair = r.choice(corpus.FEEDER_PAIRS)
         chosen.extend(pair)
     variant_pair = None
-    if pair is None and r.random() < 0.15:
+    if pair is None and r.random() < 0.3:
         variant_pair = r.choice(corpus.VARIANT_PAIRS)
         for n in variant_pair:
             if n not in chosen:
